@@ -256,6 +256,10 @@ package verifier
 //@ ensures[C01.integrity] result == nil ==> outcome.EnvelopeContent != nil && verifiedContent(outcome.EnvelopeContent, string(sigBlob), envelopeMediaType) && outcome.EnvelopeContent.Payload.ContentType == envelope.MediaTypePayloadV1
 //@ ensures[C02.results-shape] resultsWFo(outcome)
 //@ ensures[C02.enforced-failure-rejects] result == nil ==> noEnforcedFailure(outcome)
+//@ pure func pluginNamed(o *notation.VerificationOutcome) bool = exists(i, 0, len(extAttrs(o)), extAttrs(o)[i].Key == box(HeaderVerificationPlugin))
+//@ pure func integrityFailed(o *notation.VerificationOutcome) bool = len(o.VerificationResults) == 1 && o.VerificationResults[0].Type == trustpolicy.TypeIntegrity && o.VerificationResults[0].Error != nil
+//@ pure func enforcedFailureIs(o *notation.VerificationOutcome, e error) bool = exists(r, 0, len(o.VerificationResults), o.VerificationResults[r].Action == trustpolicy.ActionEnforce && o.VerificationResults[r].Error != nil && o.VerificationResults[r].Error == e)
+//@ ensures[C02.reject-needs-enforce] result != nil && !integrityFailed(outcome) && !pluginNamed(outcome) && forall(i, 0, len(extAttrs(outcome)), !extAttrs(outcome)[i].Critical) ==> enforcedFailureIs(outcome, result)
 //@ ensures[C02.order] result == nil ==> len(outcome.VerificationResults) >= 4 && outcome.VerificationResults[0].Type == trustpolicy.TypeIntegrity && outcome.VerificationResults[1].Type == trustpolicy.TypeAuthenticity && outcome.VerificationResults[2].Type == trustpolicy.TypeExpiry && outcome.VerificationResults[3].Type == trustpolicy.TypeAuthenticTimestamp
 //@ ensures[C02.skip-not-performed] result == nil && outcome.VerificationLevel.Enforcement[trustpolicy.TypeRevocation] == trustpolicy.ActionSkip ==> len(outcome.VerificationResults) == 4
 // The two clauses below are one postcondition ("on success every critical non-plugin extended attribute was
@@ -272,6 +276,7 @@ package verifier
 //@ at call (*verifier).verifyRevocation: assert[C02.capability-routing] outcome.VerificationLevel.Enforcement[trustpolicy.TypeRevocation] != trustpolicy.ActionSkip && !hasCap(pluginCapabilities, pluginframework.CapabilityRevocationCheckVerifier)
 //@ pure func segWF(o *notation.VerificationOutcome) bool = o.EnvelopeContent != nil && o.VerificationLevel != nil && resultsWFo(o) && noEnforcedFailure(o)
 //@ at call isCriticalFailure: assert[C02.segment] resultsWFo(outcome) && (sameobj(outcome.VerificationResults, old(outcome.VerificationResults)) || fresh(outcome.VerificationResults))
+//@ at call isCriticalFailure: assert[C02.segment] len(outcome.VerificationResults) >= 1 && outcome.VerificationResults[len(outcome.VerificationResults)-1] == arg0
 //@ at call loadX509TrustStores: assert[C02.segment] segWF(outcome) && (sameobj(outcome.VerificationResults, old(outcome.VerificationResults)) || fresh(outcome.VerificationResults)) && len(outcome.VerificationResults) == 1 && outcome.VerificationResults[0].Type == trustpolicy.TypeIntegrity && verifiedContent(outcome.EnvelopeContent, string(sigBlob), envelopeMediaType) && outcome.EnvelopeContent.Payload.ContentType == envelope.MediaTypePayloadV1 && len(chainOf(outcome)) >= 1 && forall(j, 0, len(chainOf(outcome)), chainOf(outcome)[j] != nil)
 //@ at call verifyExpiry: assert[C02.segment] segWF(outcome) && (sameobj(outcome.VerificationResults, old(outcome.VerificationResults)) || fresh(outcome.VerificationResults)) && len(outcome.VerificationResults) == 2 && outcome.VerificationResults[0].Type == trustpolicy.TypeIntegrity && outcome.VerificationResults[1].Type == trustpolicy.TypeAuthenticity
 //@ at call verifyAuthenticTimestamp: assert[C02.segment] segWF(outcome) && (sameobj(outcome.VerificationResults, old(outcome.VerificationResults)) || fresh(outcome.VerificationResults)) && len(outcome.VerificationResults) == 3 && outcome.VerificationResults[0].Type == trustpolicy.TypeIntegrity && outcome.VerificationResults[1].Type == trustpolicy.TypeAuthenticity && outcome.VerificationResults[2].Type == trustpolicy.TypeExpiry
@@ -287,3 +292,44 @@ package verifier
 //@ loop 2 invariant len(outcome.VerificationResults) >= 4 && outcome.VerificationResults[0].Type == trustpolicy.TypeIntegrity && outcome.VerificationResults[1].Type == trustpolicy.TypeAuthenticity && outcome.VerificationResults[2].Type == trustpolicy.TypeExpiry && outcome.VerificationResults[3].Type == trustpolicy.TypeAuthenticTimestamp
 //@ loop 2 invariant outcome.VerificationLevel.Enforcement[trustpolicy.TypeRevocation] == trustpolicy.ActionSkip ==> len(outcome.VerificationResults) == 4
 //@ loop 2 invariant newsince(capabilitiesToVerify) && forall(c, 0, len(capabilitiesToVerify), hasCap(pluginCapabilities, capabilitiesToVerify[c]) && !(outcome.VerificationLevel.Enforcement[trustpolicy.TypeRevocation] == trustpolicy.ActionSkip && capabilitiesToVerify[c] == pluginframework.CapabilityRevocationCheckVerifier))
+
+// ---- C01 / C12: the two verification entry points ----
+
+//@ pure func ociDocOK(d *trustpolicy.OCIDocument) bool = d != nil ==> forall(s, 0, len(d.TrustPolicies), svOK(d.TrustPolicies[s].SignatureVerification))
+//@ pure func blobDocOK(d *trustpolicy.BlobDocument) bool = d != nil ==> forall(s, 0, len(d.TrustPolicies), svOK(d.TrustPolicies[s].SignatureVerification))
+//@ pure func isSkip(l *trustpolicy.VerificationLevel) bool = levelDeepEq(l, trustpolicy.LevelSkip)
+//@ pure func payloadText(o *notation.VerificationOutcome) string = string(o.EnvelopeContent.Payload.Content)
+//@ pure func intact(o *notation.VerificationOutcome, sig string, mt string) bool = o.EnvelopeContent != nil && verifiedContent(o.EnvelopeContent, sig, mt) && o.EnvelopeContent.Payload.ContentType == envelope.MediaTypePayloadV1 && decPayloadErr(payloadText(o)) == nil
+//@ pure func signedTarget(o *notation.VerificationOutcome) ocispec.Descriptor = decPayload(payloadText(o)).TargetArtifact
+
+//@ func (*verifier).Verify
+//@ props C01 C02 C12
+//@ requires verifierWF(v) && ociDocOK(v.ociTrustPolicyDoc)
+//@ ensures[C12.outcome-consistent] result1 == nil ==> result != nil && result.Error == nil
+//@ ensures[C12.outcome-consistent] result1 != nil && result != nil ==> result.Error == result1
+//@ ensures[C12.failure-has-outcome] result == nil ==> result1 != nil && (v.ociTrustPolicyDoc == nil || typeis(result1, notation.ErrorNoApplicableTrustPolicy))
+//@ ensures[C12.outcome-level] result != nil ==> result.VerificationLevel != nil && fresh(result)
+//@ ensures[C01.intact] result1 == nil && !isSkip(result.VerificationLevel) ==> intact(result, string(signature), opts.SignatureMediaType)
+//@ ensures[C01.artifact] result1 == nil && !isSkip(result.VerificationLevel) ==> signedTarget(result).Digest == desc.Digest && signedTarget(result).Size == desc.Size && signedTarget(result).MediaType == desc.MediaType
+//@ ensures[C01.metadata] result1 == nil && !isSkip(result.VerificationLevel) ==> forallkeys(k, opts.UserMetadata, has(signedTarget(result).Annotations, k) && signedTarget(result).Annotations[k] == opts.UserMetadata[k])
+//@ ensures[C02.enforced-failure-rejects] result1 == nil && !isSkip(result.VerificationLevel) ==> resultsWFo(result) && noEnforcedFailure(result)
+//@ modifies fieldsof(notation.ValidationResult, Error)
+//@ at call (*verifier).processSignature: assert[C01.process-args] arg1 == signature && arg2 == opts.SignatureMediaType
+
+//@ pure func digestOfHash(h crypto.Hash) digest.Algorithm = ite(h == crypto.SHA256, digest.SHA256, ite(h == crypto.SHA384, digest.SHA384, ite(h == crypto.SHA512, digest.SHA512, "")))
+//@ global invariant algorithms != nil && has(algorithms, crypto.SHA256) && has(algorithms, crypto.SHA384) && has(algorithms, crypto.SHA512) && forall(h, crypto.Hash, has(algorithms, h) ==> (h == crypto.SHA256 || h == crypto.SHA384 || h == crypto.SHA512) && algorithms[h] == digestOfHash(h))
+
+//@ func (*verifier).VerifyBlob
+//@ props C01 C02 C07 C12
+//@ requires verifierWF(v) && blobDocOK(v.blobTrustPolicyDoc) && descGenFunc != nil
+//@ modifies fieldsof(notation.ValidationResult, Error)
+//@ ensures[C12.outcome-consistent] result1 == nil ==> result != nil && result.Error == nil
+//@ ensures[C12.outcome-consistent] result1 != nil && result != nil ==> result.Error == result1
+//@ ensures[C12.failure-has-outcome] result == nil ==> result1 != nil && (v.blobTrustPolicyDoc == nil || typeis(result1, notation.ErrorNoApplicableTrustPolicy))
+//@ ensures[C12.outcome-level] result != nil ==> result.VerificationLevel != nil && fresh(result)
+//@ ensures[C01.intact] result1 == nil && !isSkip(result.VerificationLevel) ==> intact(result, string(signature), opts.SignatureMediaType)
+//@ ensures-local[C01.blob-artifact] result1 == nil && !isSkip(result.VerificationLevel) ==> (desc.Digest == signedTarget(result).Digest && desc.Size == signedTarget(result).Size && (desc.MediaType == "" || desc.MediaType == signedTarget(result).MediaType))
+//@ ensures[C01.metadata] result1 == nil && !isSkip(result.VerificationLevel) ==> forallkeys(k, opts.UserMetadata, has(signedTarget(result).Annotations, k) && signedTarget(result).Annotations[k] == opts.UserMetadata[k])
+//@ ensures[C02.enforced-failure-rejects] result1 == nil && !isSkip(result.VerificationLevel) ==> resultsWFo(result) && noEnforcedFailure(result)
+//@ at call (*verifier).processSignature: assert[C01.process-args] arg1 == signature && arg2 == opts.SignatureMediaType
+//@ at call dynamic: assert[C01.blob-hash,C07.blob-hash] arg0 == digestOfHash(hashOfAlg(outcome.EnvelopeContent.SignerInfo.SignatureAlgorithm)) && arg0 != ""
